@@ -44,6 +44,10 @@ def check(an, rep, tier):
     I_cs = L.run_core_stab(an, rep)
     for d in ds:
         r = an.run('act_two.mul_scalar', 1, d)
+        # the merged bond pair is enumerated alike by consecutive steps (a
+        # stabilised mantissa / exponent of a WRONG product is well formed)
+        from ..engine import collect as _collect
+        _collect(rep, [r], ['S-layout'], wheres={'act_two.mul_scalar'})
         L.check_stab_calls(rep, r, 'act_two.mul_scalar',
                            'one per core pair at d=%d' % d, d)
         for j, rv in enumerate(r.returns):
